@@ -201,9 +201,13 @@ func ruleFmt11(c *Ctx) {
 				continue
 			}
 			var takes []*ssa.Call // the OutFile() calls whose result becomes the writer
-			for _, o := range core.Origins(args[1], true) {
-				if oc, _ := fxCallOf(o); oc != nil && c.P.CalleeName(oc) == "lib/query.(*Session).OutFile" {
-					takes = append(takes, oc)
+			// (a result encoded into a local buffer first reaches the streams the buffer is written to)
+			streams, _ := fxBufferedWriters(c, fn, args[1])
+			for _, w := range streams {
+				for _, o := range core.Origins(w, true) {
+					if oc, _ := fxCallOf(o); oc != nil && c.P.CalleeName(oc) == "lib/query.(*Session).OutFile" {
+						takes = append(takes, oc)
+					}
 				}
 			}
 			if len(takes) == 0 {
